@@ -139,6 +139,8 @@ fn pass_2_internal(segment: &Segment, common_context: &CommonContext) -> Result<
             }
             Item::Set(name, expr) => {
                 let value = expr.run(common_context)?;
+                // names are matched without regard to letter case
+                let name = &name.to_lowercase();
                 if common_context.exist(name) {
                     let mut sets = common_context.sets.borrow_mut();
                     if let Some(_) = sets.get(name) {
